@@ -20,12 +20,13 @@ cannot compute) is not decided; only a line that every path misreads is a violat
 from __future__ import annotations
 
 import ast
+import itertools
 from fractions import Fraction
 
 from .core import AnchorError, Unsupported
 from .e1_srcmodel import dotted
-from .c12_str import Unk, Const, Param, Opaque, Lit, Fmt, Cat, Strip, Slice, StrOf, CallS, Tup, Len, cat, as_int, is_str, is_num
-from .c12_exec import Engine, Interval, State, walk_value, _as_sequence
+from .c12_str import Unk, Const, Param, Opaque, Lit, Fmt, Cat, Strip, Slice, StrOf, CallS, Tup, Len, IntOf, FloatOf, Round, cat, as_int, is_str, is_num
+from .c12_exec import Engine, Interval, State, walk_value, _as_sequence, _FLIP
 from .c12_text import (FIELD, is_field, field_of, atoms, atom_width, width, all_blank, rstrip, slice_text, first_char, split_lines,
                        split_commas, parse_fixed, FLOATW, BLANKS)
 
@@ -109,10 +110,201 @@ FILE = Opaque("file", ())
 ITER = Opaque("iterator", ())
 
 
-def run_writer(ctx, q, name, shape):
+X = "<real field>"          # the value of a real field when the writer is evaluated on it as a number (interval-split paths)
+
+
+def _whole_test(vals):
+    """is the recorded comparison `x == int(x)` (either order, also against round(x) / float(int(x))): -> True for ==, False for !=, else None"""
+    if not vals or not isinstance(vals[0], (ast.Eq, ast.NotEq)):
+        return None
+    a, b = vals[1], vals[2]
+    if b == Param(X):
+        a, b = b, a
+    if a != Param(X):
+        return None
+    if isinstance(b, FloatOf):
+        b = b.s if hasattr(b, "s") else b
+    if isinstance(b, (IntOf, Round)) and b.x == Param(X):
+        return isinstance(vals[0], ast.Eq)
+    return None
+
+
+def _whole_fact(lf):
+    """-> (whole, open): whole = True / False when the path has established that the value is / is not a whole number (None: not tested);
+    open = source text of the recorded tests that are anything else"""
+    whole, other = None, []
+    for f in lf.state.facts:
+        w = _whole_test(f[3] if len(f) > 3 else None)
+        if w is None:
+            other.append(f[0])
+        else:
+            whole = (w == f[1])
+    return whole, other
+
+
+class _Choice:
+    """a path of the writer for the value of a real field: the leaf, what it writes for the field, and - when that is a rendering of the
+    writer's own which real_field_widths has shown to fill W columns and to end in a non-blank - the formatter call it is equivalent to as
+    far as the layout of a card goes"""
+
+    def __init__(self, leaf, render, stands_for=None):
+        self.leaf, self.render, self.stands_for = leaf, render, stands_for
+
+
+def _fold_renderings(text, choice):
+    """the writer's own rendering of real field i, piece by piece in the written text, becomes one atom of W columns"""
+    from .c12_float import _subst
+    if choice is None or choice.stands_for is None or isinstance(choice.render, CallS):
+        return text
+    parts = list(text.parts if isinstance(text, Cat) else (text,))
+    fields = sorted({n for n in walk_value(text) if is_field(n) and n.args[1].s == "float"}, key=lambda f: f.args[0])
+    for f in fields:
+        pat = _subst(choice.render, Param(X), f)
+        pat = list(pat.parts if isinstance(pat, Cat) else (pat,))
+        for i in range(len(parts)):
+            j, k, ok, pre, post = i, 0, True, None, None
+            while k < len(pat) and ok:
+                if j >= len(parts):
+                    ok = False
+                elif isinstance(pat[k], Lit) and isinstance(parts[j], Lit):
+                    if k == 0 and k == len(pat) - 1:
+                        ok = False                      # a rendering that is literal text only
+                    elif k == 0:
+                        ok = parts[j].s.endswith(pat[k].s)
+                        pre = parts[j].s[:len(parts[j].s) - len(pat[k].s)]
+                    elif k == len(pat) - 1:
+                        ok = parts[j].s.startswith(pat[k].s)
+                        post = parts[j].s[len(pat[k].s):]
+                    else:
+                        ok = parts[j] == pat[k]
+                else:
+                    ok = parts[j] == pat[k]
+                j, k = j + 1, k + 1
+            if ok and k == len(pat):
+                new = ([Lit(pre)] if pre else []) + [CallS(choice.stands_for, (f,))] + ([Lit(post)] if post else [])
+                parts[i:j] = new
+                break
+    return cat(*parts)
+
+
+def _replay_cmp(choice):
+    """comparison oracle of a symbolic-card run in which every real field has a value of the path `choice` (a leaf of real_field_paths):
+    a comparison on a real field is decided by the interval of that path, or as the path recorded it"""
+    if choice is None:
+        return None
+    choice = choice.leaf
+    from .c12_float import _subst
+
+    def cmp(op, a, b, st, eng):
+        fs = {n for v in (a, b) for n in walk_value(v) if is_field(n) and n.args[1].s == "float"}
+        if len(fs) != 1:
+            return None
+        f = next(iter(fs))
+        a2, b2 = _subst(a, f, Param(X)), _subst(b, f, Param(X))
+        if is_num(a2) and not is_num(b2) and type(op) in _FLIP:
+            a2, b2, op = b2, a2, _FLIP[type(op)]()
+        if is_num(b2) and type(op) in _FLIP:
+            saved, eng.param = eng.param, X
+            try:
+                shape = eng._param_shape(a2)
+                if shape is not None:
+                    truths = {t for t, _ in eng.split(shape, op, b2, State({}, choice.iv))}
+                    if len(truths) == 1:
+                        return truths.pop()
+            finally:
+                eng.param = saved
+        for fct in choice.state.facts:
+            old = fct[3] if len(fct) > 3 else None
+            if old and type(old[0]) is type(op) and ((old[1], old[2]) == (a2, b2)):
+                return fct[1]
+        return None
+    return cmp
+
+
+def _writer_hooks(q):
+    def call(nm, args, kw, node, st, eng):
+        if isinstance(node.func, ast.Attribute) and node.func.attr in ("write", "writelines") and len(args) == 1 and not kw \
+                and eng.ev(node.func.value, st) == FILE:
+            st.effects = st.effects + (("<file>." + node.func.attr, tuple(args), (), node),)
+            return Const(None)
+        if nm == "print" and isinstance(node.func, ast.Name) and "print" not in st.env and kw.get("file") == FILE and set(kw) <= {"file", "end", "sep", "flush"} \
+                and all(is_str(a) for a in args) and all(isinstance(kw.get(k, Lit("")), Lit) for k in ("end", "sep")):
+            # print of text to the file: the pieces joined by `sep`, then `end`
+            sep, end = kw.get("sep", Lit(" ")), kw.get("end", Lit("\n"))
+            text = cat(*[x for i, a in enumerate(args) for x in ((sep, a) if i else (a,))], end)
+            st.effects = st.effects + (("<file>.write", (text,), (), node),)
+            return Const(None)
+        return NotImplemented
+    return call
+
+
+def _written(eng, lf, q):
+    _no_escape(eng, lf, FILE, f"{q}: the file")
+    out = []
+    for nm, args, kw, node in lf.state.effects:
+        if nm == "<file>.write":
+            out.append(args[0])
+        elif nm == "<file>.writelines":
+            if not isinstance(args[0], Tup):
+                raise Unsupported(f"{q}: writelines of {type(args[0]).__name__}")
+            out.extend(args[0].items)
+    if any(not is_str(o) for o in out):
+        raise Unsupported(f"{q}: written text is not modelled ({[type(o).__name__ for o in out if not is_str(o)][:3]})")
+    return cat(*out)
+
+
+def real_field_paths(ctx, q, name):
+    """the writer evaluated on a card of one real field whose *value* is followed: every comparison on it splits its interval (as in the
+    formatters), so a fast path / special case of the writer for some values is a path of its own.
+    -> [(leaf, rendering of the field)]: what the path writes after the 8-column name, without the newline"""
+    cache = ctx.__dict__.setdefault("_c12_realpaths", {})
+    if q in cache:
+        return cache[q]
+    fn = ctx.src.func(BULK, q)
+    params = [a.arg for a in fn.args.args]
+    if len(params) < 2:
+        raise AnchorError(f"{q}: parameters")
+    env = {params[0]: FILE, params[1]: Tup((Lit(name), Param(X)))}
+
+    def cond(test, st, eng):
+        if isinstance(test, ast.Call) and dotted(test.func) == "isinstance" and len(test.args) == 2 and eng.ev(test.args[0], st) == Param(X):
+            cl = _type_classes(eng.ev(test.args[1], st))
+            return None if cl is None else "float" in cl
+        if isinstance(test, ast.Compare) and len(test.ops) == 1 and isinstance(test.ops[0], (ast.Eq, ast.NotEq)):
+            a, b = eng.ev(test.left, st), eng.ev(test.comparators[0], st)
+            if (a == Param(X) and isinstance(b, Lit)) or (b == Param(X) and isinstance(a, Lit)):
+                return isinstance(test.ops[0], ast.NotEq)          # a number is not a text
+        return _field_cond(test, st, eng)
+
+    eng = Engine(ctx, BULK, fn, param=X, cond=cond, call=_writer_hooks(q), env=env, post=_text_post, strict_locals=True, inline=lambda n: n not in FLOATW)
+    allv = eng.run()
+    out = []
+    for lf in allv:
+        if lf.kind not in ("fall", "return"):
+            if lf.kind == "raise" and isinstance(lf.value, Lit) and not lf.state.facts:
+                out.append((lf, None))            # every value of the interval ends in the exception
+            continue
+        lines = split_lines(_written(eng, lf, q))
+        if not lines or any(not isinstance(ln, Lit) for ln in lines[1:]):
+            # (a large-field card is filled up to an even number of lines: further lines of literal text only)
+            raise Unsupported(f"{q}: {len(lines)} lines written for a card of one real field")
+        parts = list(lines[0].parts if isinstance(lines[0], Cat) else (lines[0],))
+        head = ""
+        while parts and isinstance(parts[0], Lit) and len(head) < 8:
+            head += parts.pop(0).s
+        if len(head) < 8:
+            raise Unsupported(f"{q}: the name of a card of one real field is not written as literal text of 8 columns")
+        rest = ([Lit(head[8:])] if len(head) > 8 else []) + parts
+        out.append((lf, cat(*rest)))
+    cache[q] = out
+    return out
+
+
+def run_writer(ctx, q, name, shape, choice=None):
     """-> abstract text written for the card, or raises Unsupported.  The writer is evaluated with the helpers it calls (whatever they are
     named, wherever the per-field formatting lives); text counts as written when it is handed to `write` / `writelines` of the *file value*,
-    under whatever name a helper receives it.  The public float formatters stay calls: their result is one field of known width."""
+    under whatever name a helper receives it.  The public float formatters stay calls: their result is one field of known width.
+    `choice`: a path of real_field_paths - the real fields of the card have values that take it (comparisons on them are decided so)."""
     fn = ctx.src.func(BULK, q)
     params = [a.arg for a in fn.args.args]
     if len(params) < 2:
@@ -133,7 +325,8 @@ def run_writer(ctx, q, name, shape):
             return Const(None)
         return NotImplemented
 
-    eng = Engine(ctx, BULK, fn, cond=_field_cond, call=call, env=env, post=_text_post, strict_locals=True, inline=lambda n: n not in FLOATW)
+    eng = Engine(ctx, BULK, fn, cond=_field_cond, call=call, cmp=_replay_cmp(choice), env=env, post=_text_post, strict_locals=True,
+                 inline=lambda n: n not in FLOATW)
     allv = eng.run()
     leaves = [lf for lf in allv if lf.kind in ("fall", "return")]      # paths that raise write no card
     crash = [lf for lf in allv if lf.kind == "raise" and isinstance(lf.value, Lit) and not lf.state.facts]
@@ -155,7 +348,7 @@ def run_writer(ctx, q, name, shape):
         texts.append(cat(*out))
     if not texts or any(t != texts[0] for t in texts):
         raise Unsupported(f"{q}: {len(texts)} different texts for one card (undecided: {[f[0] for lf in leaves for f in lf.state.facts][:3]})")
-    return texts[0]
+    return _fold_renderings(texts[0], choice)
 
 
 def _no_escape(eng, lf, obj, what):
@@ -651,6 +844,107 @@ def _by_signature(ctx, name, args, kw):
     return full
 
 
+class _Soft:
+    """obligations evaluated for a path that the analysis cannot show some value to take: a failure there proves nothing (not decided)"""
+
+    def __init__(self, ctx):
+        self._ctx = ctx
+
+    def __getattr__(self, k):
+        return getattr(self._ctx, k)
+
+    def fail(self, what, where=None, detail=None, **kw):
+        self._ctx.error(what + ": not decided - the path depends on a test on the value that is not modelled", where, {"would report": detail})
+
+    def check(self, ok, what, where=None, detail=None, **kw):
+        if ok:
+            self._ctx.check(ok, what, where, detail, **kw)
+        else:
+            self.fail(what, where, detail)
+
+
+def real_field_widths(ctx, q, fmt, name, W):
+    """the width obligation of a real field decided by value: every path of the writer for a value of a real field (fast paths, special
+    cases) renders it in exactly W columns, for every sign / decade / rounding case of the values that take the path - either by handing it
+    to a public formatter (C12-R1/R2/R2b decide those) or by a fixed-notation rendering decided on the column model.
+    -> [(path or None, text for messages, certain)]: the paths the symbolic cards are then written for (None: the writer makes no test on
+    the value)"""
+    from .c12_float import _abs_range, decades, regimes, feasible, fact_precisions, describe, KMIN, POINT
+    from .c12_model import Reg, fixed_models, precisions_in, width_bounds
+    fn = ctx.src.func(BULK, q)
+    try:
+        paths = real_field_paths(ctx, q, name)
+    except (Crash, Unsupported, AnchorError):
+        return [(None, "", True)]           # not followed by value: the symbolic cards decide (a test on the value is then reported there)
+    live = [(lf, v) for lf, v in paths]
+    if not live:
+        return [(None, "", True)]
+    out = []
+    many = len({v for _, v in live}) > 1 or any(lf.state.facts for lf, _ in live)
+    for lf, v in live:
+        whole, other = _whole_fact(lf)
+        certain = not other
+        C = ctx if certain else _Soft(ctx)
+        how = f"values in {lf.iv}" + ("" if whole is None else " that are whole numbers" if whole else " that are not whole numbers")
+        what = f"{q}: a real field ({how}) is written in exactly {W} columns"
+        entry = (_Choice(lf, v), f" [real fields: {how}]", certain)
+        if many and v is not None and fixed_models(v, Reg(False, 1), X) is None and any(n == Param(X) for n in walk_value(v)):
+            # (a path that writes literal text for the value - `if field == 0.0: write("      0.")` - is decided here alone: in the text
+            # of a symbolic card nothing would tell which field the literal stands for)
+            out.append(entry)
+        if v is None:
+            C.fail(what, lf.node, f"the writer raises {lf.value.s}")
+            continue
+        if fixed_models(v, Reg(False, 1), X) is None:
+            lo, hi = width_bounds(v, lambda nm: FLOATW.get(nm))
+            if lo == W and hi == W:
+                C.check(True, what, lf.node)
+            elif (hi is not None and hi < W) or lo > W:
+                C.fail(what, lf.node, {"rendering": describe(v), "width between": [lo, hi]})
+            else:
+                ctx.error(what + ": the width of the rendering cannot be bounded", lf.node, {"rendering": describe(v), "width between": [lo, hi]})
+            continue
+        # a rendering of the writer's own (it bypasses the formatter): the columns per sign, decade and rounding case
+        precs = precisions_in(v, X) | fact_precisions(lf, X)
+        bad, cut, n, models = [], [], 0, []
+        for neg in (False, True):
+            rng = _abs_range(lf.iv, neg)
+            if rng is None:
+                continue
+            for k in decades(rng):
+                for reg in regimes(rng, k, precs, neg):
+                    if not feasible(lf, reg, X):
+                        continue
+                    if whole is True and (k < 1 or 0 <= reg.carry_upto < POINT):
+                        continue            # no whole number below 1 but zero (below); a whole number does not round up
+                    if whole is False and k > 16:
+                        continue            # every double of that size is a whole number
+                    ms = fixed_models(v, reg, X)
+                    n += 1
+                    models.extend(ms or [])
+                    for m in ms or [None]:
+                        side = "-" if neg else ""
+                        if m is None or m.width != W or m.corrupt:
+                            bad.append({"values": f"{side}[1e{k - 1}, 1e{k})", "columns": getattr(m, "width", None), "problem": m.corrupt if m else "not modelled"})
+                        elif m.lossy and whole is not True:
+                            cut.append(f"{side}[1e{k - 1}, 1e{k})")
+        zero = lf.iv.contains(Interval(Fraction(0), True, Fraction(0), True))
+        if zero:
+            n += 1
+            for m in fixed_models(v, Reg(False, KMIN), X) or [None]:
+                if m is None or m.width != W or m.corrupt:
+                    bad.append({"values": "0.0", "columns": getattr(m, "width", None), "problem": m.corrupt if m else "not modelled"})
+        if many and not bad and n:
+            # the symbolic cards are written for this path too; its rendering counts as one W-wide field when it cannot end in a blank
+            if all(m.pad_r == 0 for m in models):
+                entry[0].stands_for = fmt
+            out.append(entry)
+        C.check(not bad, what + f" ({n} sign / decade / rounding cases of `{describe(v)}`)", lf.node, bad[:3] or None, nontrivial=bool(n))
+        C.check(not cut, f"{q}: a real field ({how}) rendered by `{describe(v)}` keeps its value (the fraction is cut only where the path has "
+                         f"established a whole number)", lf.node, cut[:3] or None, nontrivial=bool(n))
+    return out or [(None, "", True)]
+
+
 WRITERS = (("wtcard8", "format_float8", "GRID", 8, 8), ("wtcard16", "format_float16", "GRID*", 16, 4), ("wtcard16d", "format_double16", "DMIG*", 16, 4))
 
 
@@ -706,10 +1000,14 @@ def r3_card_grid(ctx):
     if len(conch) != 2 or cch is None:
         return                              # reported above; the cards cannot be read back without knowing what the reader is handed
     # the three writers render real fields with their own formatter (single- vs double-precision style), wherever the shared code lives
+    choices = {}
     for q, fmt, name, W, per in WRITERS:
         fn = ctx.src.func(BULK, q)
+        choices[q] = real_field_widths(ctx, q, fmt, name, W)
         try:
-            used = formatters_in(run_writer(ctx, q, name, ["float", "int", "float"]))
+            used = set()
+            for choice, _, _ in choices[q]:
+                used |= formatters_in(run_writer(ctx, q, name, ["float", "int", "float"], choice))
         except (Crash, Unsupported) as e:
             ctx.error(f"{q}: the writer is not modelled", fn, str(e))
             continue
@@ -720,22 +1018,27 @@ def r3_card_grid(ctx):
     # ---- writers on the reference grid, readers on the written text
     for q, fmt, name, W, per in WRITERS:
         wfn = ctx.src.func(BULK, q)
-        tag = q
-        for desc, shape in shapes(per):
+        for (desc, shape), (choice, cdesc, certain) in itertools.product(shapes(per), choices[q]):
+            if choice is not None and "float" not in shape:
+                if choice is not choices[q][0][0]:
+                    continue                # a card without real fields: once
+                cdesc = ""
+            tag = q + cdesc
+            C = ctx if certain else _Soft(ctx)
             try:
-                text = run_writer(ctx, q, name, shape)
+                text = run_writer(ctx, q, name, shape, choice)
             except Crash as e:
-                ctx.fail(f"{tag}: card of {desc}: the card is written", wfn, str(e))
+                C.fail(f"{tag}: card of {desc}: the card is written", wfn, str(e))
                 continue
             except Unsupported as e:
-                ctx.error(f"{tag}: card of {desc}: the writer is not modelled", wfn, str(e))
+                C.error(f"{tag}: card of {desc}: the writer is not modelled", wfn, str(e))
                 continue
             try:
                 problem = check_grid(text, W, per, conch[W], shape)
             except Unsupported as e:
-                ctx.error(f"{tag}: card of {desc}: the written text is not modelled", wfn, str(e))
+                C.error(f"{tag}: card of {desc}: the written text is not modelled", wfn, str(e))
                 continue
-            ctx.check(problem is None, f"{tag}: card of {desc}: name in 8 columns, every field in its own {W}-wide slot, {per} per line, "
+            C.check(problem is None, f"{tag}: card of {desc}: name in 8 columns, every field in its own {W}-wide slot, {per} per line, "
                                        f"continuation lines headed by 8 columns starting with a character the reader accepts", wfn, problem)
             if problem is not None:
                 continue
@@ -748,29 +1051,29 @@ def r3_card_grid(ctx):
             try:
                 got, used = run_reader(ctx, "_rdfixed", lines, W, conch[W], True)
             except Crash as e:
-                ctx.fail(f"_rdfixed reads the {tag} card of {desc} back field for field ({len(lines)} lines)", rfn, str(e))
+                C.fail(f"_rdfixed reads the {tag} card of {desc} back field for field ({len(lines)} lines)", rfn, str(e))
                 continue
             except Unsupported as e:
-                ctx.error(f"_rdfixed on the {tag} card of {desc}: the reader is not modelled", rfn, str(e))
+                C.error(f"_rdfixed on the {tag} card of {desc}: the reader is not modelled", rfn, str(e))
                 continue
             ok = trim(got, BLANK) == want
-            ctx.check(ok, f"_rdfixed reads the {tag} card of {desc} back field for field ({len(lines)} lines)", rfn,
+            C.check(ok, f"_rdfixed reads the {tag} card of {desc} back field for field ({len(lines)} lines)", rfn,
                       None if ok else _diff(got, want, used, len(lines)))
             if W == 8 and len(lines) > 1 and " " in conch[8]:
                 try:
                     got, used = run_reader(ctx, "_rdfixed", blank_heads(lines), W, conch[W], True)
                     ok = trim(got, BLANK) == want
-                    ctx.check(ok, f"_rdfixed reads the {tag} card of {desc} alike when its continuation fields are blank", rfn,
+                    C.check(ok, f"_rdfixed reads the {tag} card of {desc} alike when its continuation fields are blank", rfn,
                               None if ok else _diff(got, want, used, len(lines)))
                 except Crash as e:
-                    ctx.fail(f"_rdfixed reads the {tag} card of {desc} alike when its continuation fields are blank", rfn, str(e))
+                    C.fail(f"_rdfixed reads the {tag} card of {desc} alike when its continuation fields are blank", rfn, str(e))
                 except Unsupported as e:
-                    ctx.error(f"_rdfixed on the {tag} card of {desc} with blank continuation fields: the reader is not modelled", rfn, str(e))
+                    C.error(f"_rdfixed on the {tag} card of {desc} with blank continuation fields: the reader is not modelled", rfn, str(e))
             if fmt == "format_double16":
                 continue
             cfn = ctx.src.func(BULK, "_rdcomma")
-            if W != 8:
-                continue                # the comma form does not depend on the field width: once per shape
+            if W != 8 or choice is not choices[q][0][0]:
+                continue                # the comma form does not depend on the field width (nor on the values): once per shape
             for lead, short, marker, how in ((",", False, "", "',' continuations"), ("+,", False, "", "'+,' continuations"),
                                              (" ,", True, "", "' ,' continuations, trailing blank fields of a line left out"),
                                              ("+C1,", False, "+C1", "continuation fields '+C1' at both ends")):
@@ -778,13 +1081,13 @@ def r3_card_grid(ctx):
                 try:
                     gotc, usedc = run_reader(ctx, "_rdcomma", cl, None, cch, False)
                 except Crash as e:
-                    ctx.fail(f"_rdcomma reads the comma form ({how}) of the card of {desc} like the fixed form", cfn, str(e))
+                    C.fail(f"_rdcomma reads the comma form ({how}) of the card of {desc} like the fixed form", cfn, str(e))
                     continue
                 except Unsupported as e:
-                    ctx.error(f"_rdcomma on the comma form ({how}) of the card of {desc}: the reader is not modelled", cfn, str(e))
+                    C.error(f"_rdcomma on the comma form ({how}) of the card of {desc}: the reader is not modelled", cfn, str(e))
                     continue
                 ok = trim(gotc, BLANK) == want
-                ctx.check(ok, f"_rdcomma reads the comma form ({how}) of the card of {desc} like the fixed form", cfn,
+                C.check(ok, f"_rdcomma reads the comma form ({how}) of the card of {desc} like the fixed form", cfn,
                           None if ok else _diff(gotc, want, usedc, len(cl)))
 
 
